@@ -65,7 +65,9 @@ structure DObj where
   o : Obj
   saved : Bytes := []
 
-def saveLine (r : SaveRes) (sum : Bool) : String :=
+def saveLine (r : SaveRes) (sum : Bool) (file : Bool := false) : String :=
+  -- `file=1`: file-name overload onto a file limited to `budget` bytes — only the result is compared
+  if file then s!"save={r.ok} bytes=-" else
   if sum then s!"save={r.ok} len={r.os.content.length} fnv={fnv r.os.content}"
   else s!"save={r.ok} bytes={hexOfBytes r.os.content}"
 
@@ -156,7 +158,8 @@ def wstep (d : DObj) (t : List String) : Option (M (DObj × String)) :=
   | "save" :: rest => some do
     let os : OStream := { budget := (kv? rest "budget").map parseNat }
     let r ← save o os
-    pure ({ o := r.obj, saved := r.os.content }, saveLine r (kv? rest "out" == some "sum"))
+    pure ({ o := r.obj, saved := if kvn rest "file" 0 == 1 then [] else r.os.content },
+          saveLine r (kv? rest "out" == some "sum") (kvn rest "file" 0 == 1))
   | "savefile" :: rest =>
     -- `save(const std::string&)`: opening the file is std::filebuf's business (not modelled): by rule an
     -- unopenable path gives false without touching the object, a full device gives false after the
@@ -255,7 +258,7 @@ def runCase (ops : List (List String)) : List String :=
           pure (some (Int.ofNat len + ri).toNat, some len)
         | none => pure ((kv? args "budget").map parseNat, flen)
       match budget >>= fun (b, fl) => (save d.o { budget := b }).map fun r => (r, fl) with
-      | .ok (r, fl) => go objs fresh fl cur rest (saveLine r (kv? args "out" == some "sum") :: acc)
+      | .ok (r, fl) => go objs fresh fl cur rest (saveLine r (kv? args "out" == some "sum") (kvn args "file" 0 == 1) :: acc)
       | .error f => (f.render :: acc).reverse
     | t :: rest =>
       let d := objs.getD cur d0
